@@ -225,10 +225,10 @@ def coqchk(prop_id, timeout=2400):
     t0 = time.time()
     rc, out = sh("timeout %d coqchk -silent -o -Q . Zeno Zeno.Props.%s 2>&1" % (timeout, prop_id), cwd=COQ, timeout=timeout + 30)
     axioms = []
-    m = re.search(r"\* Axioms:(.*?)(?:\n\* |\Z)", out, flags=re.S)
+    m = re.search(r"\* Axioms:(.*?)(?:\n\s*\n\* |\Z)", out, flags=re.S)
     if m:
         axioms = [l.strip() for l in m.group(1).split("\n") if l.strip() and l.strip() != "<none>"]
-    return {"rc": rc, "ok": rc == 0 and "Modules were successfully checked" in out, "axioms": axioms,
+    return {"rc": rc, "ok": rc == 0 and "CONTEXT SUMMARY" in out, "axioms": axioms,
             "tail": out[-1500:], "wall_s": round(time.time() - t0, 1)}
 
 
